@@ -8,6 +8,7 @@ import (
 	"path"
 	"testing"
 	"testing/fstest"
+	"time"
 
 	"pgregory.net/rapid"
 
@@ -38,7 +39,7 @@ var varNames = []string{"PK", "KEK", "db", "dbx", "VerifOrdinary", "LoaderEntryS
 func secureBoot(i int) bool { return i < 4 }
 
 type Op struct {
-	Kind  string // write | signed | readall
+	Kind  string // write | signed | signed_subset (signed update whose payload is a part of the variable's current value) | readall
 	Var   int
 	Value hx.Hex
 	Ident int
@@ -50,8 +51,9 @@ type Pre struct {
 }
 
 type Case struct {
-	Pre []Pre
-	Ops []Op
+	Pre   []Pre
+	Ops   []Op
+	TZMin int // process time zone offset from UTC in minutes (signed updates carry a timestamp)
 }
 
 // dbValue draws an encodable database value: empty, 1..3 lists, entries of several sizes.
@@ -93,6 +95,9 @@ func genCase(t *rapid.T) Case {
 			c.Pre = append(c.Pre, Pre{Var: v, Value: val})
 		}
 	}
+	if rapid.Bool().Draw(t, "nonutc") {
+		c.TZMin = 15 * rapid.IntRange(-48, 56).Draw(t, "tzquarters")
+	}
 	max := 25
 	if hx.Thorough() {
 		max = 60
@@ -116,6 +121,10 @@ func genCase(t *rapid.T) Case {
 			op.Kind = "signed"
 			op.Value = dbValue(t)
 			op.Ident = rapid.IntRange(0, 3).Draw(t, "ident")
+			if rapid.IntRange(0, 2).Draw(t, "subset") == 0 {
+				op.Kind = "signed_subset" // the payload is computed from the current value when the step runs
+				op.Ident = rapid.IntRange(0, 1000).Draw(t, "subsetseed")
+			}
 		default:
 			op.Kind = "readall"
 		}
@@ -210,6 +219,12 @@ func checkCase(c Case) error {
 		}
 		store = store.With(m)
 	}
+	if c.TZMin != 0 {
+		saved := time.Local
+		time.Local = time.FixedZone("verif", c.TZMin*60)
+		defer func() { time.Local = saved }()
+		hx.Class("process_time_zone_not_utc")
+	}
 	e := store.Open()
 	reused = [4]signature.SignatureDatabase{}
 	if err := checkAll(e, model, "initially"); err != nil {
@@ -237,6 +252,36 @@ func checkCase(c Case) error {
 			if err := e.WriteVar(v, m); err != nil {
 				return fmt.Errorf("%s: WriteVar fails: %v", step, err)
 			}
+		case "signed_subset":
+			// replace the variable by a proper part of its current value (one list, or one entry of one list)
+			cur, derr := esl.Decode(model[vi])
+			if derr != nil || len(esl.Flatten(cur)) < 2 {
+				continue
+			}
+			var part []esl.List
+			l := cur[op.Ident%len(cur)]
+			if len(l.Entries) == 0 {
+				continue
+			}
+			if len(cur) > 1 && op.Ident%2 == 0 {
+				part = []esl.List{l}
+			} else {
+				part = []esl.List{{Type: l.Type, Size: l.Size, Header: l.Header, Entries: []esl.Entry{l.Entries[op.Ident%len(l.Entries)]}}}
+			}
+			op.Value = esl.Encode(part)
+			if bytes.Equal(op.Value, model[vi]) {
+				continue
+			}
+			hx.Class("signed_update_with_a_subset_of_the_current_value")
+			db, err := signature.ReadSignatureDatabase(bytes.NewReader(op.Value))
+			if err != nil {
+				return fmt.Errorf("bad case: subset payload: %v", err)
+			}
+			id := ids[op.Ident%4]
+			if err := e.WriteSignedUpdate(v, &db, id.Priv(), id.Cert); err != nil {
+				return fmt.Errorf("%s: WriteSignedUpdate fails: %v", step, err)
+			}
+			step = fmt.Sprintf("after step %d (signed update of %s with a %d-byte part of its %d-byte value)", i, varNames[vi], len(op.Value), len(model[vi]))
 		case "signed":
 			db, err := signature.ReadSignatureDatabase(bytes.NewReader(op.Value))
 			if err != nil {
